@@ -100,11 +100,16 @@ enum AsmLine {
 
 impl AsmLine {
     fn write(&self, writer: &mut dyn Write, cycles: bool) -> Result<usize, std::io::Error> {
+        // A sink may accept fewer bytes than offered: write everything, report the length
+        fn write_all(writer: &mut dyn Write, buf: &[u8]) -> Result<usize, std::io::Error> {
+            writer.write_all(buf)?;
+            Ok(buf.len())
+        }
         let mut s = 0;
         match self {
             AsmLine::Label(string) => {
-                s += writer.write(string.as_bytes())?;
-                s += writer.write("\n".as_bytes())?;
+                s += write_all(writer, string.as_bytes())?;
+                s += write_all(writer, "\n".as_bytes())?;
             }
             AsmLine::Instruction(inst) => {
                 if cycles {
@@ -114,28 +119,30 @@ impl AsmLine {
                         format!("\t; {}", inst.cycles)
                     };
                     if !inst.dasm_operand.is_empty() {
-                        s += writer.write(
+                        s += write_all(
+                            writer,
                             format!("\t{} {:19}{}\n", inst.mnemonic, &inst.dasm_operand, c)
                                 .as_bytes(),
                         )?;
                     } else {
-                        s += writer.write(format!("\t{:23}{}\n", inst.mnemonic, c).as_bytes())?;
+                        s += write_all(writer, format!("\t{:23}{}\n", inst.mnemonic, c).as_bytes())?;
                     }
                 } else {
                     if !inst.dasm_operand.is_empty() {
-                        s += writer.write(
+                        s += write_all(
+                            writer,
                             format!("\t{} {}\n", inst.mnemonic, &inst.dasm_operand).as_bytes(),
                         )?;
                     } else {
-                        s += writer.write(format!("\t{}\n", inst.mnemonic).as_bytes())?;
+                        s += write_all(writer, format!("\t{}\n", inst.mnemonic).as_bytes())?;
                     }
                 }
             }
             AsmLine::Inline(inst, _) => {
-                s += writer.write(format!("\t{}\n", inst).as_bytes())?;
+                s += write_all(writer, format!("\t{}\n", inst).as_bytes())?;
             }
             AsmLine::Comment(comment) => {
-                s += writer.write(format!(";{}\n", comment).as_bytes())?;
+                s += write_all(writer, format!(";{}\n", comment).as_bytes())?;
             }
             AsmLine::Dummy => (),
         }
